@@ -26,56 +26,7 @@ Definition corr_sniff (c : list Z * (option Z * option Z) * list (option Z * opt
   | _ => false
   end.
 
-(* ---- pipelines.  A placement is (target-or-href, flag); names = zip namelist.
-   result per unit: (image_number, member name) — member "" for a record without bytes *)
-Definition placement := (str * Z)%type.
-Definition is_http (h : str) : bool := startswith h (s "http").
-
-Definition fetch_opc (base : str) (names : list str) (pl : placement) : option str :=
-  member_of names (resolve_part base (fst pl)).
-(* ODF frames that keep a record for external links *)
-Definition fetch_odf (names : list str) (pl : placement) : option str :=
-  if is_http (fst pl) then Some [] else member_of names (odf_member (fst pl)).
-
-Definition flag_is (k : Z) (pl : placement) : bool := snd pl =? k.
-(* for anchor_type in (oneCellAnchor, twoCellAnchor, absoluteAnchor): for anchor in root.iter(anchor_type) *)
-Definition xlsx_order (u : list placement) : list placement :=
-  filter (flag_is 0) u ++ filter (flag_is 1) u ++ filter (flag_is 2) u.
-
-(* ODG (and the second pass of ODT): hrefs already seen are skipped *)
-Fixpoint odf_dedupe (names seen : list str) (count_missing : bool) (k : Z) (l : list placement)
-  : list (Z * str) * list str * Z :=
-  match l with
-  | [] => ([], seen, k)
-  | pl :: r =>
-      let h := fst pl in
-      if mem_str h seen then odf_dedupe names seen count_missing k r
-      else match fetch_odf names pl with
-           | Some m => let '(out, sn, k') := odf_dedupe names (h :: seen) count_missing (k + 1) r in ((k + 1, m) :: out, sn, k')
-           | None => if count_missing
-                     then let '(out, sn, k') := odf_dedupe names (h :: seen) count_missing (k + 1) r in ((k + 1, []) :: out, sn, k')
-                     else odf_dedupe names seen count_missing k r
-           end
-  end.
-
-(* ODT first pass: images inside text boxes; external hrefs skipped; every href marked as processed *)
-Fixpoint odt_pass1 (names : list str) (k : Z) (l : list placement) : list (Z * str) * list str * Z :=
-  match l with
-  | [] => ([], [], k)
-  | pl :: r =>
-      let h := fst pl in
-      if is_http h then odt_pass1 names k r
-      else match member_of names (odf_member h) with
-           | Some m => let '(out, sn, k') := odt_pass1 names (k + 1) r in ((k + 1, m) :: out, h :: sn, k')
-           | None => let '(out, sn, k') := odt_pass1 names k r in (out, h :: sn, k')
-           end
-  end.
-
-Definition odt_images (names : list str) (u : list placement) : list (Z * str) :=
-  let '(o1, seen, k) := odt_pass1 names 0 (filter (flag_is 1) u) in
-  let '(o2, _, _) := odf_dedupe names seen false k (filter (flag_is 0) u) in
-  o1 ++ o2.
-
+(* ---- pipelines: placements, fetch functions and the ODT/ODG passes are defined in Model.v *)
 (* fmt: 0 docx 1 pptx 2 xlsx 3 odt 4 odp 5 ods 6 odg 7 epub *)
 Definition pipeline (fmt : Z) (base : str) (names : list str) (units : list (list placement)) : list (list (Z * str)) :=
   match fmt with
@@ -112,3 +63,15 @@ Definition corr_pipeline (c : Z * str * list str * list (list placement) * list 
 (* PDF content type: (filter chain as written, implementation's content type) against the table of the live module *)
 Definition corr_pdf_ctype (tbl : list (str * str)) (c : list str * str) : bool :=
   str_eqb (pdf_content_type tbl (fst c)) (snd c).
+
+(* content type by extension: (format 0 docx / 1 pptx / 2 xlsx, name, (raw ext, lowered ext) recorded from str.lower,
+   implementation's content type) *)
+Definition lower_of (pr : str * str) (x : str) : str := if str_eqb x (fst pr) then snd pr else x.
+Definition corr_ctype (tbls : list (list (str * str))) (c : Z * str * (str * str) * str) : bool :=
+  let '(fmt, name, pr, got) := c in
+  match fmt, tbls with
+  | 0%Z, [d; _; _] => str_eqb (ooxml_content_type (lower_of pr) d name) got
+  | 1%Z, [_; p; _] => str_eqb (ooxml_content_type (lower_of pr) p name) got
+  | 2%Z, [_; _; x] => str_eqb (xlsx_content_type (lower_of pr) x name) got
+  | _, _ => false
+  end.
